@@ -57,7 +57,8 @@ def ityOfName : String → Option ITy
 
 def opOfName : String → Option BinOp
   | "<<" => some .shl | ">>" => some .shr | "&" => some .and | "|" => some .or | "+" => some .add
-  | "-" => some .sub | "*" => some .mul | "!=" => some .ne | "<" => some .lt | _ => none
+  | "-" => some .sub | "*" => some .mul | "!=" => some .ne | "<" => some .lt
+  | "^" => some .bxor | "==" => some .eqq | _ => none
 
 def fixedVar : String → Option Var
   | "raw" => some .raw | "field_value" => some .fieldValue | "index" => some .index | "value" => some .value
@@ -97,7 +98,7 @@ partial def synth (c : ECtx) : Sx → Option ITy
   | .list [.atom "id", e] => synth c e
   | .list [.atom "bin", .atom op, a, b] =>
     if op == "<<" || op == ">>" then synth c a
-    else if op == "!=" || op == "<" then none
+    else if op == "!=" || op == "<" || op == "==" then none
     else (synth c a).orElse (fun _ => synth c b)
   | .list [.atom "not", a] => synth c a
   | .list [.atom "cast", _, .atom t] => ityOfName t
@@ -135,7 +136,7 @@ partial def elabSx (c : ECtx) (hint : Option ITy) : Sx → Option Expr
         | some ea, some eb => some (.bin op ea eb)
         | _, _ => none
       else
-        let opHint := if op == .ne || op == .lt then none else hint
+        let opHint := if op == .ne || op == .lt || op == .eqq then none else hint
         let ta := synth c a
         let tb := synth c b
         let h := (ta.orElse (fun _ => tb)).orElse (fun _ => opHint)
